@@ -237,3 +237,27 @@ EXTRA8 = {
 for _pid, _x in EXTRA8.items():
     if _pid in CLAIMED:
         CLAIMED[_pid]["text"] += _x
+
+EXTRA9 = {
+ "C01": " Round 9: the index parser tells deleted from live by the record's length, as the writers encode it (R10); an update lands above the revision it names - the allocator's drift-back error is not dropped on the way to a commit (R11 <- C02-R7).",
+ "C02": " Round 9: a version record is committed with an allocated revision only where that allocation's error was found nil (R7).",
+ "C03": " Round 9: Count agrees with Range - the worker counts exactly where it appends (R10); no record of a key's history expires on its own except the classified Event create (R11 <- C17-R5).",
+ "C05": " Round 9: no dead error guard - the test that stops a stream after a failed send can fire (R15); the event cache is addressed at logical positions (R16).",
+ "C06": " Round 9: replay finds the cached events at their logical positions (C05-R16 into R7).",
+ "C07": " Round 9: every compaction prefix is made a directory under exactly the suffix test (R9); 'the compare failed' means a failed compare on every engine (C09-R4, C11-R1 into R6).",
+ "C08": " Round 9: a compaction request is answered after its record was written - no go statement between a request entry point and Backend.Compact (R8); the answer names the revision the record was raised to (R9).",
+ "C09": " Round 9: the repair queue has one consumer (R10); the repair decides presence by the getter's error, not by the length of the value (R11; found and fixed 9da52a0); handlers do not crash on the error path of a write (R12 <- C20-R11).",
+ "C10": " Round 9: a realigned border is the index key of the key it was decoded to, and every inner border reaches the decoder (R5 <- C13-R9, C13-R5).",
+ "C11": " Round 9: iterator bound tests tabulated over the outcomes of bytes.Compare and the direction flag (R16); the TiKV backward seek key is start followed by a zero byte (R17); memkv decides absence by nil, not by length (R18); no engine write after a not-found read in CAS / DelCurrent (R1).",
+ "C12": " Round 9: the in-process engine's expiry timers each see their own record (R8 <- C19-R10); commit-error classification of the TiKV adapter and C11-R16/R18 into R0.",
+ "C13": " Round 9: an outcome kept by sync.Once is a failure (R8); C13-R5 / R9 clauses listed under C10.",
+ "C14": " Round 9: a conditional operation does not take a failed read for an absent key (C11-R11 into R5).",
+ "C16": " Round 9: the failed-condition answer carries no key-value only where the re-read reported not-found (R5).",
+ "C17": " Round 9: a compaction mark (revision, time) is immutable (R10); expiry timers do not share a loop variable (C19-R10 into R8).",
+ "C18": " Round 9: the stop callback clears the leader flag, non-deferred, before it ends the process (R9).",
+ "C19": " Round 9: package-level variables written after initialisation are atomic, under a package-level lock or behind a sync.Once (R9); no function literal that runs later captures a per-loop variable (R10).",
+ "C20": " Round 9: no check-then-use contradiction on pointers in the request layers (R11).",
+}
+for _pid, _x in EXTRA9.items():
+    if _pid in CLAIMED:
+        CLAIMED[_pid]["text"] += _x
